@@ -31,6 +31,7 @@ type VerifC05Part struct {
 	Upd bool `json:"upd"` // rewrite this thread's own (pre-created) entity in d
 	Mrg bool `json:"mrg"` // rewrite the group's merged-read entity in d
 	Hot bool `json:"hot"` // rewrite the dataset's shared entity h<d> (written by every client)
+	As  int  `json:"as"`  // the name the dataset has when the op runs, if it was renamed after the handle was obtained (names the shared entity)
 }
 
 type VerifC05Op struct {
@@ -39,6 +40,10 @@ type VerifC05Op struct {
 	To    int            `json:"to"`
 	Parts []VerifC05Part `json:"parts"`
 	Grp   int            `json:"grp"` // merged-read entity id for Mrg parts
+	After [][2]int       `json:"after"` // do not start before client [0] has finished its op [1]
+	Sync  int            `json:"sync"`  // > 0: spin until all clients have reached their op with this round number
+	// setns: write dataset D's meta entity with new publicNamespaces into core.Dataset
+	// upload: parse a JSON body whose @context introduces the namespace of round Sync and store its one entity into Parts[0].D
 }
 
 type VerifC05Case struct {
@@ -65,7 +70,8 @@ type VerifC05RunObs struct {
 	Feeds   map[string][]int `json:"feeds"`
 	Snaps   [][3]int       `json:"snaps"` // [dataset code, length, is-prefix-of-final-feed]
 	Times   map[string][]int `json:"times"` // per dataset: rank of the recorded time of each feed entry
-	Looks   [][3]int       `json:"looks"` // [dataset, k of the last feed entry of an entity, k returned by the scoped lookup]
+	Looks   [][4]int       `json:"looks"` // [dataset, k of the last feed entry of an entity, k of the scoped lookup, k in the listing]
+	Dups    int            `json:"dups"`  // namespace expansions with more than one prefix + uploaded URIs listed more than once
 	Torn    int            `json:"torn"`  // merged reads whose per-dataset parts disagree
 	AtTorn  int            `json:"attorn"`  // point-in-time merged reads (at the recorded instant of a part) whose parts disagree
 	AtReads int            `json:"atreads"`
@@ -151,6 +157,19 @@ type vc05Rec struct {
 }
 
 func (r *vc05Rec) handle(name, arg string) {
+	if name == "batch.afterCommit" || name == "batch.beforeIdCommit" {
+		if (r.gate == "nsrace" && name == "batch.afterCommit" && arg != datasetCore) ||
+			(r.gate == "renrace" && name == "batch.beforeIdCommit" && arg != datasetCore) {
+			if v, ok := r.tids.Load(vc05Gid()); ok && v.(int) == 0 {
+				first := false
+				r.t0HasOnce.Do(func() { first = true; close(r.t0Has) })
+				if first {
+					<-r.t1Parked
+				}
+			}
+		}
+		return
+	}
 	kind := -1
 	switch name {
 	case "lock.wait":
@@ -188,7 +207,7 @@ func (r *vc05Rec) handle(name, arg string) {
 					r.cycle = true
 				}
 			}
-			if r.forced && tid == 1 && h == 0 {
+			if (r.forced || r.gate == "renrace") && tid == 1 && h == 0 {
 				park = true
 			}
 		}
@@ -197,6 +216,9 @@ func (r *vc05Rec) handle(name, arg string) {
 		r.holder[lk] = tid
 		if r.forced && tid == 0 {
 			pause = true
+		}
+		if r.gate == "nsrace" && tid == 1 && lk == vc05Core {
+			park = true // client 1 is inside core.Dataset's critical section: let the held batch go for it
 		}
 	case 2:
 		delete(r.holder, lk)
@@ -250,6 +272,10 @@ type vc05Env struct {
 	dsm     *DsManager
 	c       VerifC05Case
 	handles []map[int]*Dataset // per client: the dataset objects CreateDataset handed to it
+	rounds  [64]int32          // arrivals per sync round
+	doneMu  sync.Mutex
+	doneCv  *sync.Cond
+	done    []int // per client: number of finished ops
 }
 
 func vc05Ent(id string, k int) *Entity {
@@ -267,7 +293,11 @@ func (env *vc05Env) partEntities(tid, k int, p VerifC05Part, grp int) []*Entity 
 		es = append(es, vc05Ent(fmt.Sprintf("ns3:u%d_%d", tid, p.D), k))
 	}
 	if p.Hot {
-		es = append(es, vc05Ent(fmt.Sprintf("ns3:h%d", p.D), k))
+		n := p.D
+		if p.As != 0 {
+			n = p.As
+		}
+		es = append(es, vc05Ent(fmt.Sprintf("ns3:h%d", n), k))
 	}
 	if p.Mrg {
 		e := NewEntity(fmt.Sprintf("ns3:m%d", grp), 0)
@@ -300,6 +330,31 @@ func (env *vc05Env) runOp(tid, k int, op VerifC05Op) error {
 			txn.DatasetEntities[vc05Name(p.D)] = env.partEntities(tid, k, p, op.Grp)
 		}
 		return env.store.ExecuteTransaction(txn)
+	case "setns":
+		info, err := env.store.NamespaceManager.GetDatasetNamespaceInfo()
+		if err != nil {
+			return err
+		}
+		e, err := env.store.GetEntity(info.DatasetPrefix+":"+vc05Name(op.D), []string{datasetCore}, true)
+		if err != nil || e == nil {
+			return fmt.Errorf("no meta entity for %s: %v", vc05Name(op.D), err)
+		}
+		e.Properties[info.PublicNamespacesKey] = []string{fmt.Sprintf("http://v/public/%d/", k)}
+		return env.dsm.GetDataset(datasetCore).StoreEntities([]*Entity{e})
+	case "upload":
+		ds := env.dsm.GetDataset(vc05Name(op.Parts[0].D))
+		if ds == nil {
+			return fmt.Errorf("no dataset %s", vc05Name(op.Parts[0].D))
+		}
+		body := fmt.Sprintf(`[ {"id":"@context","namespaces":{"p":"http://v/burst/%d/"}}, {"id":"p:thing","props":{"p:k":%d},"refs":{}} ]`, op.Sync, k)
+		var batch []*Entity
+		if err := NewEntityStreamParser(env.store).ParseStream(strings.NewReader(body), func(ent *Entity) error {
+			batch = append(batch, ent)
+			return nil
+		}); err != nil {
+			return err
+		}
+		return ds.StoreEntities(batch)
 	case "create":
 		ds, err := env.dsm.CreateDataset(vc05Name(op.D), nil)
 		if ds != nil {
@@ -313,6 +368,24 @@ func (env *vc05Env) runOp(tid, k int, op VerifC05Op) error {
 		return env.dsm.DeleteDataset(vc05Name(op.D))
 	}
 	return fmt.Errorf("unknown op %s", op.T)
+}
+
+// vc05K is the marker an entity carries: its property <prefix>:k
+func vc05K(e *Entity) int {
+	if e == nil {
+		return -1
+	}
+	for key, v := range e.Properties {
+		if strings.HasSuffix(key, ":k") {
+			if f, ok := v.(float64); ok {
+				return int(f)
+			}
+			if n, ok := v.(int); ok {
+				return n
+			}
+		}
+	}
+	return -1
 }
 
 type vc05Entry struct {
@@ -339,10 +412,7 @@ func vc05Entries(ds *Dataset, since int) ([]vc05Entry, error) {
 			}
 		}
 		if m < 0 {
-			m = -1
-			if f, ok := e.Properties["ns3:k"].(float64); ok {
-				m = int(f)
-			}
+			m = vc05K(e)
 		}
 		out = append(out, vc05Entry{m, e.Recorded, e.ID, e.InternalID})
 	}
@@ -401,9 +471,13 @@ func vc05Setup(c VerifC05Case, dir string) (*vc05Env, func(), error) {
 // vc05Execute runs the threads of the case once on env; watchdog = how long without completion counts as a hang.
 func vc05Execute(env *vc05Env, threads [][]VerifC05Op, kbase int, forced bool, watchdog time.Duration) (run VerifC05RunObs) {
 	const confirm = 1200 * time.Millisecond
+	const stall = 30 * time.Second
 	c := env.c
 	rec := &vc05Rec{curop: make([]int32, len(threads)), holder: map[int]int{}, waiting: map[int]int{},
 		forced: forced, gate: c.Gate, bothAt: make(chan struct{}), t0Has: make(chan struct{}), t1Parked: make(chan struct{})}
+	env.doneCv = sync.NewCond(&env.doneMu)
+	env.done = make([]int, len(threads))
+	env.rounds = [64]int32{}
 	env.handles = make([]map[int]*Dataset, len(threads))
 	for t := range threads {
 		env.handles[t] = map[int]*Dataset{}
@@ -434,16 +508,33 @@ func vc05Execute(env *vc05Env, threads [][]VerifC05Op, kbase int, forced bool, w
 			defer wg.Done()
 			rec.tids.Store(vc05Gid(), t)
 			<-start
-			if (forced || c.Gate == "race") && t == 1 {
+			if (forced || c.Gate == "race" || c.Gate == "nsrace" || c.Gate == "renrace") && t == 1 {
 				<-rec.t0Has
 			}
 			for i, op := range threads[t] {
+				for _, a := range op.After {
+					env.doneMu.Lock()
+					for env.done[a[0]] <= a[1] {
+						env.doneCv.Wait()
+					}
+					env.doneMu.Unlock()
+				}
+				if op.Sync > 0 && op.Sync < len(env.rounds) {
+					atomic.AddInt32(&env.rounds[op.Sync], 1)
+					for int(atomic.LoadInt32(&env.rounds[op.Sync])) < len(threads) {
+						runtime.Gosched()
+					}
+				}
 				atomic.StoreInt32(&rec.curop[t], int32(i))
 				if err := env.runOp(t, kbase+t*1000+i+1, op); err != nil {
 					run.Errs[t][i] = err.Error()
 				}
+				env.doneMu.Lock()
+				env.done[t] = i + 1
+				env.doneCv.Broadcast()
+				env.doneMu.Unlock()
 			}
-			if (forced || c.Gate == "race") && t == 1 {
+			if (forced || c.Gate == "race" || c.Gate == "nsrace" || c.Gate == "renrace") && t == 1 {
 				rec.t1Once.Do(func() { close(rec.t1Parked) })
 			}
 		}(t)
@@ -529,10 +620,21 @@ wait:
 		case <-tick.C:
 			rec.mu.Lock()
 			n, cyc := len(rec.events), rec.cycle
+			blocked := false
+			for _, l := range rec.waiting {
+				if _, held := rec.holder[l]; held {
+					blocked = true
+				}
+			}
 			rec.mu.Unlock()
 			if n != lastN {
 				lastN, lastChange = n, time.Now()
 			} else if cyc && time.Since(lastChange) > confirm {
+				hang = true
+				break wait
+			} else if blocked && time.Since(lastChange) > stall {
+				// somebody waits for a lock its holder does not release and nothing has moved for a long time
+				// (a lock taken without a hook point is invisible to the cycle detection)
 				hang = true
 				break wait
 			}
@@ -611,16 +713,53 @@ wait:
 		run.Times[strconv.Itoa(d)] = tr
 		if d != vc05Core {
 			sort.Strings(ids)
+			listing := map[string]int{}
+			if ds := env.dsm.GetDataset(vc05Name(d)); ds != nil {
+				if res, err := ds.GetEntities("", -1); err == nil {
+					things := 0
+					for _, le := range res.Entities {
+						listing[le.ID] = vc05K(le)
+						if strings.HasSuffix(le.ID, ":thing") {
+							things++
+						}
+					}
+					uris := map[string]bool{}
+					for _, id := range ids {
+						if strings.HasSuffix(id, ":thing") {
+							if u, err := env.store.ExpandCurie(id); err == nil {
+								uris[u] = true
+							} else {
+								uris[id] = true
+							}
+						}
+					}
+					if things > len(uris) {
+						run.Dups += things - len(uris)
+					}
+				}
+			}
 			for _, id := range ids {
 				got := -1
 				e, err := env.store.GetEntity(id, []string{vc05Name(d)}, true)
 				if err == nil && e != nil {
-					if f, ok := e.Properties["ns3:k"].(float64); ok {
-						got = int(f)
-					}
+					got = vc05K(e)
 				}
-				run.Looks = append(run.Looks, [3]int{d, lastOf[id], got})
+				lk, ok := listing[id]
+				if !ok {
+					lk = -1
+				}
+				run.Looks = append(run.Looks, [4]int{d, lastOf[id], got, lk})
 			}
+		}
+	}
+	// one prefix per namespace expansion
+	perExp := map[string]int{}
+	for _, exp := range env.store.NamespaceManager.GetPrefixToExpansionMap() {
+		perExp[exp]++
+	}
+	for _, n := range perExp {
+		if n > 1 {
+			run.Dups += n - 1
 		}
 	}
 	// point-in-time lookups of every merged-read entity at every instant one of its parts was recorded:
